@@ -842,6 +842,16 @@ func (env *Env) call(x ECall) TV {
 			cfail("zero of compound type %s", ty)
 		}
 		return TV{T: w.zeroOfSort(zs), Ty: ty}
+	case "refof":
+		// refof(iface): the object reference an interface value holds (whatever its dynamic type)
+		if len(x.Args) != 1 {
+			cfail("refof(iface)")
+		}
+		v := env.comp(x.Args[0])
+		if v.T == nil || v.T.Sort != SIface {
+			cfail("refof(iface)")
+		}
+		return TV{T: IfRef(v.T), Ty: types.NewPointer(types.NewStruct(nil, nil))}
 	case "owned":
 		// owned(p): p was taken from a pool by the current thread and not put back yet (ghost)
 		if len(x.Args) != 1 {
